@@ -44,6 +44,7 @@ properties! {
     "C03" => c03,
     "C04" => c04,
     "C05" => c05,
+    "C06" => c06,
     "C11" => c11,
 }
 
